@@ -311,7 +311,7 @@ class Dimension(metaclass=_Interned):
         name: Optional[str] = None,
         symbol: Optional[str] = None,
     ) -> "Dimension":
-        key = exponents
+        key = cls._widened(exponents)
         if key in cls._known:
             return cls._known[key]
 
@@ -329,13 +329,25 @@ class Dimension(metaclass=_Interned):
         if self._initialized:
             return
 
-        self.exponents = exponents
+        self.exponents = self._widened(exponents)
         self.name = name
         self.symbol = symbol
         self._initialized = True
 
         if name:
             self._by_name[name] = self
+
+    @classmethod
+    def _widened(cls, exponents: Tuple[int, ...]) -> Tuple[int, ...]:
+        """Exponents written down before further fundamental dimensions were defined
+        (in a pickle or a JSON document) are shorter than they are today"""
+        missing = len(cls._fundamental) + 1 - len(exponents)
+        return exponents + (0,) * missing if missing > 0 else exponents
+
+    def __setstate__(self, state: Tuple[None, Dict[str, Any]]) -> None:
+        _, slots = state
+        for name, value in slots.items():
+            setattr(self, name, self._widened(value) if name == "exponents" else value)
 
     @classmethod
     def fundamental(cls) -> Iterable["Dimension"]:
